@@ -168,13 +168,16 @@ def run(ctx):
             gvar, bvar = norm(loop.target.elts[0]), norm(loop.target.elts[1])
             table = norm(loop.iter)[: -len(".items()")]
             ok = norm(ext[0].func.value) == gvar and bvar in norm(ext[0].args[0])
-            puts = [n for n in own_nodes(f.node) if isinstance(n, ast.Call) and isinstance(n.func, ast.Attribute) and n.func.attr == "append"
+            puts = [n for n in own_nodes(f.node) if isinstance(n, ast.Call) and isinstance(n.func, ast.Attribute) and n.func.attr in ("append", "appendleft")
                     and isinstance(n.func.value, ast.Subscript) and norm(n.func.value.value) == table]
             ok = ok and len(puts) == 1 and norm(puts[0].func.value.slice) == f"{norm(puts[0].args[0])}.graph"
     ctx.check("R2", "each bucket is keyed by node.graph and extended into that graph", bool(ok), f, ext[0] if ext else f.node,
               "sorted nodes can be relinked into a graph other than the one they belong to (a node changes graphs, or Graph.extend rejects it half-way)",
               how="bucket[node.graph].append(node) … for graph, bucket in buckets.items(): graph.extend(… bucket …)")
-    rev = bool(ext) and "reversed(" in norm(ext[0].args[0])
+    # the nodes are produced in reverse topological order: either appended and reversed when relinked, or pushed at the
+    # front (deque.appendleft) and relinked as they are
+    front = [n for n in own_nodes(f.node) if isinstance(n, ast.Call) and isinstance(n.func, ast.Attribute) and n.func.attr == "appendleft" and isinstance(n.func.value, ast.Subscript)]
+    rev = bool(ext) and (("reversed(" in norm(ext[0].args[0])) != bool(front))
     ctx.check("R2", "buckets (built in reverse topological order) are reversed when relinked", rev, f, ext[0] if ext else f.node,
               "nodes are relinked in reverse order", how="reversed(bucket)", nontrivial=False)
     keys = [n for n in own_nodes(f.node) if isinstance(n, (ast.DictComp,)) and any(isinstance(x, ast.Attribute) and x.attr == "graph" for x in ast.walk(n))]
